@@ -74,10 +74,11 @@ def run(prop, key, direction):
         res.violate(prop + ".R1", b["id"], "returned parser is not the configured one", "default() returns %s" % M.show(rt)[:160], file=v.file(), line=b["line"])
     # the registration reaches GenericParser.claim_validators under the claim's key (plumbing)
     plumbing(res, prop, facts, strict=False)
+    table_monotone(res, prop + ".R5", facts)
     # R4: the registered validator is actually invoked with the payload's value and its verdict honoured (verify_claims rules of C16)
     from .. import claims as CL
     for f in CL.analyse(facts):
-        if f.rule in ("C16.R2", "C16.R3", "C16.R4"):
+        if f.rule in ("C16.R2", "C16.R3", "C16.R4", "C16.R6"):
             res.oblige(f.ok)
             if f.ok:
                 res.inst(prop + ".R4", f.desc)
@@ -146,6 +147,38 @@ def plumbing(res, prop, facts, strict=True):
     else:
         res.violate(prop + ".R1", b["id"], "validator registration plumbing", "validate_claim must store the closure in the validator table under the claim's key%s; %s" % (" with insert (last registration wins)" if strict else "", why[:300]),
                     file=v.file(), line=b["line"])
+
+
+GROW_ONLY = r"::(insert|extend|reserve|try_reserve|shrink_to_fit|shrink_to|get|get_mut|contains_key|iter|iter_mut|values|values_mut|keys|len|is_empty|entry)$"
+
+
+def table_monotone(res, rule, facts):
+    """No function of the crate takes a registered validator away again: outside GenericParser::new the validator table is only
+    borrowed mutably by growing operations (insert / extend ...) and never assigned, cleared, drained or removed from - otherwise a later
+    builder-style call (e.g. check_claim on the same key) silently disarms the default exp / nbf validators."""
+    n = 0
+    bad = []
+    for bid, b in sorted(facts.bodies.items()):
+        v = M.view(facts, b)
+        for w in M.field_writes(v):
+            if not (w["adt"].endswith("generic_parser::GenericParser") and w["field"] == "claim_validators"):
+                continue
+            n += 1
+            if w["kind"] in ("assign", "call_dest"):
+                if not re.search(r"GenericParser::<'a, 'b, Version, Purpose>::new$", bid):
+                    bad.append((bid, "claim_validators is overwritten", w["ln"], v.file()))
+            elif w["kind"] == "mutborrow":
+                users = w.get("user_defs") or w.get("users") or []
+                off = [u for u in users if not re.search(GROW_ONLY, u or "")]
+                if off or not users:
+                    bad.append((bid, "claim_validators is passed to %s" % (", ".join(M.short(u) for u in off) or "an untracked user"), w["ln"], v.file()))
+    res.oblige(not bad and n > 0)
+    if n == 0:
+        res.violate(rule, "GenericParser.claim_validators", "anchor missing", "no registration into the validator table found")
+    for bid, what, ln, file in bad:
+        res.violate(rule, bid, what, "a registered validator can be removed or replaced wholesale: the default expiry / not-before validators would no longer run for that parser", file=file, line=ln)
+    if not bad and n:
+        res.inst(rule, "the validator table only grows: %d mutable uses of GenericParser.claim_validators, all insert / extend" % n)
 
 
 def evaluate(facts, cb, key):
